@@ -54,12 +54,22 @@ package secretbox
 // Open: the tag (first 16 bytes of the box) is verified over the rest of the box before anything is
 // decrypted or any output is claimed; a box shorter than the tag or with a wrong tag gives (nil, false)
 //@ func Open
-//@ props C10
+//@ props C10 C02
 //@ reindex
 //@ nonnil nonce key
 //@ requires len(out) + len(box) <= 281474976710656
 //@ may_panic_when len(box) >= 16 && anyov(out, len(box) - 16, box)
 //@ modifies heap
+//@ modifies ghost(box, vcnt)
+//@ modifies ghost(box, vok)
+//@ modifies ghost(box, voff)
+//@ modifies ghost(box, vlen)
+//@ modifies ghost(box, vtag)
+// success only after exactly one tag check that answered true, over the box body box[16:], against the tag box[:16]
+//@ ensures implies(result1, ghost(box, vcnt) == old(ghost(box, vcnt)) + 1 && ghost(box, vok) == 1)
+//@ ensures implies(result1, ghost(box, voff) == off(box) + 16 && ghost(box, vlen) == len(box) - 16 && forall(i, 0, 16, ghost(box, vtag)[i] == old(box[i])))
+// and with the one-time key taken from key stream bytes 0..31 of block 0
+//@ check_at "if !poly1305.Verify(&tag, box[poly1305.TagSize:], &poly1305Key) {" forall(i, 0, 32, poly1305Key[i] == spec.sks(ref(subKey[:]), le64(counter, 0), 0, i))
 //@ ensures implies(len(box) < 16, !result1 && result0 == nil)
 //@ ensures implies(!result1, result0 == nil)
 //@ ensures implies(result1, len(result0) == len(out) + len(box) - 16 && forall(i, 0, len(out), result0[i] == old(out[i])))
